@@ -23,14 +23,21 @@ def run_case(res, case, attempt=0):
     ids = r.sample(range(1, 256, 2), n)
     contexts = []
     for cid in ids:
-        a, tl = c09.CONTEXT_CHOICES[r.randrange(160)]
+        a, tl = c09.CONTEXT_CHOICES[r.randrange(len(c09.CONTEXT_CHOICES))]
         abstract = c09.STRANGER if a == 3 else c09.CLASSES[a]
         contexts.append((cid, abstract, tuple(c09.TSS[t] for t in c09.TS_LISTS[tl])))
+    extra = sorted(r.sample(range(len(c09.EXTRAS)), r.choice([0, 1, 2, 3])))
+    ident = [e for e in extra if c09.EXTRAS[e]['type'] == 0x58]
+    extra = [e for e in extra if e not in ident[1:]]
+    extra_subs = [c09.EXTRAS[e] for e in extra]
     res.evaluations += 1 if not attempt else 0
-    res.distinct.add('tcp|%d|%d|%s' % (served_mask, ts_mask, [(c, a[-4:], len(t)) for c, a, t in contexts]))
+    res.distinct.add('tcp|%d|%d|%s|%s' % (served_mask, ts_mask, [(c, a[-4:], t) for c, a, t in contexts], extra))
     where = 'TCP served=%s supported=%s proposed=%s' % (
         [s.decode()[-8:] for s in served], [t.decode()[-6:] for t in supported],
         [(c, a.decode()[-8:], [t.decode()[-6:] for t in ts]) for c, a, ts in contexts])
+    if extra:
+        where += ' user-items=%s' % [('%02X' % s['type'], s.get('uid', b'').decode()[-8:], s.get('scu'),
+                                      s.get('scp')) for s in extra_subs]
     calls = []
     lock = threading.Lock()
 
@@ -64,7 +71,8 @@ def run_case(res, case, attempt=0):
             with tcpnet.serving(server):
                 peer = tcpnet.RefPeer.connect(server.port)
                 try:
-                    reply = peer.associate(contexts, called=b'TCPSCP', calling=b'REF-REQUESTOR')
+                    reply = peer.associate(contexts, called=b'TCPSCP', calling=b'REF-REQUESTOR',
+                                           extra_subs=extra_subs)
                     if reply['type'] == 2:
                         for item in [it for it in reply['items'] if it['type'] == 0x21 and it['result'] == 0]:
                             abstract = [a for c, a, t in contexts if c == item['id']]
@@ -86,7 +94,8 @@ def run_case(res, case, attempt=0):
                     before = len(calls)
                     peer = tcpnet.RefPeer.connect(server.port)
                     try:
-                        peer.associate(contexts, called=b'TCPSCP', calling=b'REF-REQUESTOR')
+                        peer.associate(contexts, called=b'TCPSCP', calling=b'REF-REQUESTOR',
+                                           extra_subs=extra_subs)
                         peer.send_dimse(cid, {R.TAG_AFFECTED_SOP_CLASS: abstract.decode(),
                                               R.TAG_COMMAND_FIELD: 0x0030, R.TAG_MESSAGE_ID: 9})
                         try:
